@@ -24,14 +24,24 @@ func vNNTree(height int) *vState {
 	case 1:
 		s.tree.root = s.arithLeaf(1 + vChoose(vBound(3, 4)))
 	default:
-		c := 2 + vChoose(vBound(1, 2))
+		c := 2 + vChoose(vBound(1, 1))
 		kids := make([]*node, c)
 		for i := range kids {
-			kids[i] = s.arithLeaf(1 + vChoose(vBound(2, 3)))
+			kids[i] = s.arithLeaf(1 + vChoose(vBound(2, 2)))
 		}
 		s.tree.root = vInner(2, kids)
 	}
 	s.tree.height = height
+	s.tree.size = len(s.objs)
+	return s
+}
+
+func vNNTree3() *vState {
+	vSummaries(false)
+	s := &vState{tree: &Rtree{MinChildren: 2, MaxChildren: 4}}
+	kids := []*node{s.arithLeaf(1 + vChoose(2)), s.arithLeaf(1 + vChoose(2)), s.arithLeaf(1)}
+	s.tree.root = vInner(2, kids)
+	s.tree.height = 2
 	s.tree.size = len(s.objs)
 	return s
 }
@@ -98,6 +108,12 @@ func vCheckKNN(s *vState, k int) {
 
 func VH_C12_knn_h1() { vCheckKNN(vNNTree(1), 1+vChoose(3)); vReach("end") }
 func VH_C12_knn_h2() { vCheckKNN(vNNTree(2), 1+vChoose(vBound(2, 3))); vReach("end") }
+func VH_C12_knn_h2_wide() {
+	// thorough: three leaves
+	s := vNNTree3()
+	vCheckKNN(s, 1+vChoose(3))
+	vReach("end")
+}
 
 func VH_C12_nn() {
 	s := vNNTree(1 + vChoose(2))
